@@ -7,7 +7,7 @@ package main
 // VerifyKes / VerifyOpCertSignature on the decoded header) judges it.
 //
 // op:  hdr <c|t> <useed> <slot> <blockNo> <spk> <maxEvo> <ocPeriod> <kesT> <seq> <ctx> <tamper>
-// out: lead=<b> ser=<b> valid=<b> errs=<check names> lkes=<1|0|e> lopc=<b>
+// out: lead=<b> ser=<b> valid=<b> lkes=<1|0|e> lopc=<b> errs=<check names>
 //      (or: lead=0 notleader | lead=- builderr:<kind>)
 
 import (
@@ -401,7 +401,7 @@ func runC40(op string) string {
 	} else {
 		lkes, lopc = "decode", "decode"
 	}
-	return fmt.Sprintf("lead=1 ser=%s valid=%s errs=%s lkes=%s lopc=%s", b01(ser), b01(res.Valid), es, lkes, lopc)
+	return fmt.Sprintf("lead=1 ser=%s valid=%s lkes=%s lopc=%s errs=%s", b01(ser), b01(res.Valid), lkes, lopc, es)
 }
 
 func genC40(r *Rand, n int, tier string, emit func(string)) {
@@ -431,7 +431,32 @@ func genC40(r *Rand, n int, tier string, emit func(string)) {
 				kesT = cur - ocPeriod
 			}
 		}
+		// both edges of the certificate window, ±1: the early side signed with the un-evolved key
+		if r.Chance(1, 5) {
+			if ocPeriod == 0 {
+				ocPeriod = 1 + uint64(r.Intn(300))
+			}
+			switch r.Intn(5) {
+			case 0:
+				cur, kesT = ocPeriod-1, 0
+			case 1:
+				cur, kesT = ocPeriod, 0
+			case 2:
+				cur, kesT = ocPeriod+1, 1
+			case 3:
+				cur = ocPeriod + maxEvo - 1
+				kesT = min(maxEvo-1, 63)
+			default:
+				cur = ocPeriod + maxEvo
+				kesT = min(maxEvo, 63)
+			}
+		}
 		slot := cur*spk + uint64(r.Intn(int(spk)))
+		if r.Chance(1, 3) {
+			slot = cur * spk // first slot of the period
+		} else if r.Chance(1, 3) {
+			slot = cur*spk + spk - 1 // last slot of the period
+		}
 		if slot == 0 {
 			slot = 1
 		}
